@@ -99,6 +99,23 @@ func caseVariants(w string) []string {
 	if mixed != w && mixed != lower {
 		vs = append(vs, mixed)
 	}
+	// capitals inside the word (camelCase spellings): the last letter, and every second letter
+	if len(lower) > 1 {
+		inner := lower[:len(lower)-1] + strings.ToUpper(lower[len(lower)-1:])
+		alt := []byte(lower)
+		for i := 1; i < len(alt); i += 2 {
+			alt[i] = strings.ToUpper(string(alt[i]))[0]
+		}
+		for _, v := range []string{inner, string(alt)} {
+			dup := false
+			for _, x := range vs {
+				dup = dup || x == v
+			}
+			if !dup {
+				vs = append(vs, v)
+			}
+		}
+	}
 	return vs
 }
 
@@ -574,7 +591,7 @@ func C16(run *ev.Run, tier string) map[string]interface{} {
 		"evaluations":         evals,
 		"distinct_nontrivial": len(jobs),
 		"reserved_words":      len(words),
-		"rule":                fmt.Sprintf("%d reserved words (pinned copy of the pinned commit's table) x letter case {UPPER, lower, Mixed} x %d bare-name positions of both grammars, %d benign names and aliased reserved words that must pass; every subset of supplied vs used placeholders over {#a,#ab,#b} x {:a,:ab,:b} (names that are prefixes of one another) through %d client entry points, malformed placeholder keys; 21 key-condition shapes on base table and index plus the missing key condition; BatchWriteItem sizes 1..27 over 1..3 tables and write requests that are both/neither put and delete; both SDK clients", len(words), len(c16Positions), len(benign), len(opKinds)),
+		"rule":                fmt.Sprintf("%d reserved words (pinned copy of the pinned commit's table) x letter case {UPPER, lower, Capitalised, last letter capital, every second letter capital} x %d bare-name positions of both grammars, %d benign names and aliased reserved words that must pass; every subset of supplied vs used placeholders over {#a,#ab,#b} x {:a,:ab,:b} (names that are prefixes of one another) through %d client entry points, malformed placeholder keys; 21 key-condition shapes on base table and index plus the missing key condition; BatchWriteItem sizes 1..27 over 1..3 tables and write requests that are both/neither put and delete; both SDK clients", len(words), len(c16Positions), len(benign), len(opKinds)),
 		"oracle":              "the rule table of the property statement; rule-respecting requests must not be rejected for these reasons",
 		"samples":             []interface{}{"attribute_exists(Name)", "SET z = if_not_exists(STATUS, :v)", "filter uses {#ab,:ab}, supplied {#a,#ab,:ab}", "Query key condition: h = :h OR r = :r", "BatchWriteItem 26 requests over 3 tables"},
 		"exhaustive":          true,
